@@ -328,14 +328,20 @@ impl Map {
         input.size().max().map_or_else(
             || Integer::from_min(0),
             |&max| {
+                // LIMIT and OFFSET are unsigned and may exceed i64::MAX
                 let max = match offset {
-                    Some(offset_val) => std::cmp::max(0, max - offset_val as i64),
+                    Some(offset_val) => std::cmp::max(
+                        0,
+                        max.saturating_sub(i64::try_from(offset_val).unwrap_or(i64::MAX)),
+                    ),
                     None => max,
                 };
                 Integer::from_interval(
                     0,
                     match limit {
-                        Some(limit_val) => std::cmp::min(limit_val as i64, max),
+                        Some(limit_val) => {
+                            std::cmp::min(i64::try_from(limit_val).unwrap_or(i64::MAX), max)
+                        }
                         None => max,
                     },
                 )
